@@ -336,6 +336,25 @@ def decode (H : Hash) (pk realm : Bytes) (now : Int) (response method : Bytes)
           | .error e => .error e
           | .ok () => .ok ⟨username, method, realm, auth⟩
 
+/-! ### histories
+
+`DigestCredentialFactory` keeps nothing between calls but `privateKey` (no set of outstanding nonces, no
+cache of verified opaques, no counters), and `DigestedCredentials` keeps only what `decode` handed it:
+a history of responses presented to ONE factory is decoded response by response. -/
+
+/-- one presentation of a response header: the clock (integer seconds), the header bytes, the request
+    method and the address it comes from -/
+structure Request where
+  now : Int
+  response : Bytes
+  method : Bytes
+  host : Option Bytes
+  deriving DecidableEq, Repr
+
+/-- every `decode` call of a history on one factory, in order -/
+def decodeAll (H : Hash) (pk realm : Bytes) (reqs : List Request) : List (Except Err Creds) :=
+  reqs.map fun r => decode H pk realm r.now r.response r.method r.host
+
 /-- `_digest.algorithms[name]` -/
 def algorithms (name : Bytes) : Except Err HashFn :=
   if name = s "md5" then .ok .md5
